@@ -221,3 +221,14 @@ PROPS["C14"]["engines"].append(("twins", {"quick": 400, "thorough": 8000}))
 PROPS["C14"]["rule"] += " ; plus identical test functions in 2-3 files differing only in a module-level constant (harness/engines/twins.py)"
 ENGINES["twins"] = "textually identical functions in several files: one call site per file must be tracked on its own"
 PROPS["C17"]["rule"] += " ; compared values optionally wrapped in a tuple (immutable outside, mutable inside)"
+
+NESTED_RULE = ("seeded generator (harness/engines/nested.py): display trees (depth <= 3, redundant parentheses, hand-written leaves) in which random sub-expressions are wrapped into an inner "
+               "snapshot(...) or replaced by an empty snapshot(); new value derived by edits, so inner snapshots are replaced with their parent, deleted with their element, reached only "
+               "while aligning, or compared for real; evaluated once or twice (loop); same run twice")
+for _p in ("C18", "C02", "C08"):
+    PROPS[_p]["engines"].append(("nested", {"quick": 1000, "thorough": 30000}))
+    PROPS[_p]["rule"] += " ; plus " + NESTED_RULE
+ENGINES["nested"] = ("snapshot() calls nested in the argument of another snapshot(): without flags the answer and the untouched file vs Model/Assign.lean (inner snapshot = Unmanaged value); with flags "
+                     "direct oracles only (no internal error / overlap, rewritten test passes with inline-snapshot disabled, second run is a no-op) — the nested call sites are stateful and outside the Lean model")
+PROPS["C14"]["rule"] += (" ; site engine: in 12% of the cases an unrelated comparison that raises (10 kinds: while aligning, inside dict values, ordering TypeError, failed deepcopy, nested snapshot, ...) "
+                         "is evaluated at the start of one test; the modelled call sites must end exactly as without it")
